@@ -454,22 +454,19 @@ Theorem slice_grow_refuted :
   sonic_unmarshal h1 Opt opts_std t s v = Ok (VList [VList [VInt 1; VInt 0] []; VList [VInt 2; VInt 0] []] []).
 Proof. split; vm_compute; reflexivity. Qed.
 
-(* map[string]string with a null value; map[uint32] with a key above 2^32-1; float32 just above MaxFloat32;
-   null into a pointer to pointer to an unmarshaler *)
+(* map[string]string with a null value; null into a pointer to pointer to an unmarshaler *)
 Theorem map_string_null_refuted :
   sonic_unmarshal h1 Jit opts_std (TMap KStr TStr) (b "{""k"":null}") VNil = Ok (VMap [(VStr (b "k"), VStr [])]) /\
   sonic_unmarshal h1 Opt opts_std (TMap KStr TStr) (b "{""k"":null}") VNil = Err.
 Proof. split; vm_compute; reflexivity. Qed.
 
-Theorem u32_key_refuted :
-  sonic_unmarshal h1 Jit opts_std (TMap (KInt U32) (TInt I64)) (b "{""4294967296"":1}") VNil = Ok (VMap [(VInt 0, VInt 1)]) /\
-  sonic_unmarshal h1 Opt opts_std (TMap (KInt U32) (TInt I64)) (b "{""4294967296"":1}") VNil = Err.
-Proof. split; vm_compute; reflexivity. Qed.
-
-Theorem f32_edge_refuted :
+(* repaired divergences (afd5482, 39e707a): the uint32 key and the float32 edge now agree *)
+Theorem u32_key_and_f32_edge_agree :
+  sonic_unmarshal h1 Jit opts_std (TMap (KInt U32) (TInt I64)) (b "{""4294967296"":1}") VNil = Err /\
+  sonic_unmarshal h1 Opt opts_std (TMap (KInt U32) (TInt I64)) (b "{""4294967296"":1}") VNil = Err /\
   sonic_unmarshal h1 Jit opts_std TF32 (b "3.4028235e38") (VFlt 0) = Ok (VFlt 2139095039) /\
-  sonic_unmarshal h1 Opt opts_std TF32 (b "3.4028235e38") (VFlt 0) = Err.
-Proof. split; vm_compute; reflexivity. Qed.
+  sonic_unmarshal h1 Opt opts_std TF32 (b "3.4028235e38") (VFlt 0) = Ok (VFlt 2139095039).
+Proof. repeat split; vm_compute; reflexivity. Qed.
 
 Theorem ptrptr_null_refuted_11 :
   sonic_unmarshal h1 Jit opts_std (TPtr (TPtr TUnm)) (b "null") VNil = Err /\
